@@ -118,6 +118,16 @@ class NpProxy:
             return a
         return _np.zeros(shape, dtype=dtype)
 
+    def empty(self, shape=None, dtype=None, **kw):
+        """np.empty for float64 results: an object array (so that symbolic values can be stored), pre-filled with 0.0"""
+        if shape is None:
+            shape = kw.pop("shape")
+        if _is_float_dt(dtype):
+            a = _np.empty(shape, dtype=object, order=kw.get("order", "C"))
+            a.fill(0.0)
+            return a
+        return _np.empty(shape, dtype=dtype, **kw)
+
     def ones(self, shape=None, dtype=None, **kw):
         if shape is None:
             shape = kw.pop("shape")
@@ -324,23 +334,29 @@ class NpProxy:
 
     # -- structural functions lacking object support ------------------------------------------
     @staticmethod
-    def unique(ar, return_counts=False, axis=None, **kw):
+    def unique(ar, return_index=False, return_inverse=False, return_counts=False, axis=None, **kw):
         if not any_sym(ar):
             ar = _np.asarray(ar)
             if ar.dtype == object:
                 ar = ar.astype(float)
-            return _np.unique(ar, return_counts=return_counts, axis=axis, **kw)
+            return _np.unique(ar, return_index=return_index, return_inverse=return_inverse, return_counts=return_counts, axis=axis, **kw)
+        if kw:
+            raise SymUnsupported(f"np.unique keyword(s) {sorted(kw)} on symbolic data")
         ar = _np.asarray(ar, dtype=object)
         rows = [tuple(r) for r in ar] if axis == 0 else list(ar.ravel())
-        # group by symbolic equality (forks), order is irrelevant for the callers encoded
-        groups = []
-        for r in rows:
-            for g in groups:
+        # group by symbolic equality (forks). The groups come in order of first appearance, NOT sorted: callers that rely on the
+        # sorted order of numpy's result are outside what this stand-in supports (none of the encoded ones does)
+        groups, first, inverse = [], [], []
+        for pos, r in enumerate(rows):
+            for gi, g in enumerate(groups):
                 if _rows_equal(g[0], r):
                     g[1] += 1
+                    inverse.append(gi)
                     break
             else:
                 groups.append([r, 1])
+                first.append(pos)
+                inverse.append(len(groups) - 1)
         if axis == 0:
             unq = _np.empty((len(groups), ar.shape[1]), dtype=object)
             for i, g in enumerate(groups):
@@ -349,7 +365,14 @@ class NpProxy:
         else:
             unq = _objarray([g[0] for g in groups])
         counts = _np.array([g[1] for g in groups], dtype=int)
-        return (unq, counts) if return_counts else unq
+        out = [unq]
+        if return_index:
+            out.append(_np.array(first, dtype=int))
+        if return_inverse:
+            out.append(_np.array(inverse, dtype=int))
+        if return_counts:
+            out.append(counts)
+        return tuple(out) if len(out) > 1 else unq
 
     @staticmethod
     def linspace(start, stop, num=50, **kw):
